@@ -1,4 +1,4 @@
--- Root of the `CuqiVerif` library.  Model files are import-free; Props files import single Mathlib modules.
+-- Root of the `CuqiVerif` library: only the shared, import-free infrastructure.
+-- Per-property modules (Model/Cxx, Props/Cxx) are built by name (`lake build CuqiVerif.Props.C20`).
 import CuqiVerif.Model.Proto
 import CuqiVerif.Model.QMat
-import CuqiVerif.Model.C20
